@@ -94,6 +94,13 @@ pub fn battery(e: &Envelope, other: &Envelope, keys: &Keys) -> Vec<(String, Stri
     t!("has_signature_from_returning_metadata", e.has_signature_from_returning_metadata(&pubk)); t!("verify_signature_from_returning_metadata", e.verify_signature_from_returning_metadata(&pubk));
     t!("has_signatures_from_threshold", e.has_signatures_from_threshold(&[&pubk, &keys.base2.schnorr_public_keys()], Some(1)));
     t!("verify_signatures_from", e.verify_signatures_from(&[&pubk])); t!("verify", e.verify(&pubk)); t!("verify_returning_metadata", e.verify_returning_metadata(&pubk));
+    // every choice of key list and threshold, also the silly ones: no keys, threshold 0, threshold above the number of keys
+    { let k2 = keys.base2.schnorr_public_keys();
+      let lists: Vec<Vec<&dyn bc_envelope::Verifier>> = vec![vec![], vec![&pubk], vec![&pubk, &k2], vec![&k2, &pubk, &k2]];
+      for l in &lists { for t in [None, Some(0usize), Some(1), Some(2), Some(3), Some(4), Some(usize::MAX)] {
+          t!("has_signatures_from_threshold(args)", e.has_signatures_from_threshold(l, t));
+          t!("verify_signatures_from_threshold(args)", e.verify_signatures_from_threshold(l, t));
+      } t!("has_signatures_from(args)", e.has_signatures_from(l)); t!("verify_signatures_from(args)", e.verify_signatures_from(l)); } }
     t!("sign", e.sign(&keys.base));
     t!("recipients", e.recipients()); t!("add_recipient", e.add_recipient(&pubk, &keys.sym)); t!("decrypt_subject_to_recipient", e.decrypt_subject_to_recipient(&keys.base));
     t!("decrypt_to_recipient", e.decrypt_to_recipient(&keys.base)); t!("encrypt_subject_to_recipient", e.encrypt_subject_to_recipient(&pubk));
@@ -140,6 +147,32 @@ fn run_battery(c: &mut Ctx, reg: &str, other: &str, keys: &Keys) {
 /// envelopes with decorated (salted) extension assertions and wrongly typed objects
 fn special_envelopes(c: &mut Ctx) -> Vec<String> {
     let mut out = vec![];
+    // expression-family shapes: a response / request / event subject with every small multiset of result, error, body,
+    // content, note and date assertions (none, one, repeated, decorated, object elided)
+    {
+        let arid = CBOR::to_tagged_value(40012u64, CBOR::to_byte_string(vec![3u8; 32]));
+        let unknown = CBOR::to_tagged_value(40000u64, 0u64);
+        for (tag, inner) in [(40011u64, arid.clone()), (40011, unknown.clone()), (40010, arid.clone()), (40012, arid.clone())] {
+            let subj = c.assign(&format!("leaf {}", hex::encode(CBOR::to_tagged_value(tag, inner).to_cbor_data())));
+            let parts: Vec<(u64, &str)> = vec![(101, "6161"), (101, "6162"), (102, "6163"), (102, "6164"), (100, "01"), (100, "02"), (103, "6165"), (4, "6166"), (16, "c11a6553f100")];
+            let mut regs = vec![];
+            for (kv, leaf) in &parts { let p = c.assign(&format!("kv {}", kv)); let o = c.assign(&format!("leaf {}", leaf)); regs.push(c.assign(&format!("assertion {} {}", p, o))); }
+            for mask in [0b000000001u32, 0b000000011, 0b000000101, 0b000001100, 0b000000111, 0b000110000, 0b000010000, 0b001000000, 0b011000011, 0b110010000, 0] {
+                let mut e = subj.clone();
+                for (i, r) in regs.iter().enumerate() { if mask >> i & 1 == 1 { e = c.assign(&format!("add {} {}", e, r)); } }
+                out.push(e.clone());
+                // one part decorated, one part with its object elided
+                if mask & 3 == 3 {
+                    let note = c.assign("kv 4"); let t = c.assign("leaf 6174"); let deco = c.assign(&format!("assertion {} {}", note, t));
+                    let d0 = c.assign(&format!("add {} {}", regs[0], deco));
+                    let base = c.assign(&format!("add {} {}", subj, d0));
+                    out.push(c.assign(&format!("add {} {}", base, regs[1])));
+                    let o1 = c.assign(&format!("at {} o", regs[1]));
+                    out.push(c.assign(&format!("elide_set {} rem elide {}", e, o1)));
+                }
+            }
+        }
+    }
     let kvs = [3u64, 5, 6, 1, 15, 50, 16, 4, 51, 52, 9, 10, 13, 14, 23];
     let s = c.assign("leaf 6548656c6c6f");
     for kv in kvs {
